@@ -1283,6 +1283,34 @@ pub fn record_c18(a: &Args) -> usize {
             }
         }
     }
+    // a caller that was idle before a paced exchange (the pause protects the message *after* the chunk, whatever came before it),
+    // one that dawdles for part of the pause itself, and one whose thread holds a pending wake-up token (a pause built on parking
+    // returns at once then)
+    for idle in [10u64, 35, 45, 120] {
+        call(&mut out, &Message::Goodbye(own), None, None, 1, None);
+        std::thread::sleep(Duration::from_millis(idle));
+        call(&mut out, &chunk, None, None, 1, None);
+        call(&mut out, &Message::DataChunksSent(ChunkCount(1)), None, None, 1, None);
+        call(&mut out, &chunk, None, None, 1, None);
+        std::thread::sleep(Duration::from_millis(idle.min(20)));
+        call(&mut out, &Message::PixelsComplete(own), None, None, 1, None);
+        std::thread::sleep(Duration::from_millis(idle));
+        call(&mut out, &Message::QueryState(own), Some(Message::ReportState(own, State::PageShowInProgress)), None, 1, None);
+    }
+    for _ in 0..3 {
+        std::thread::current().unpark();
+        call(&mut out, &chunk, None, None, 1, None);
+        call(&mut out, &Message::Goodbye(own), None, None, 1, None);
+        std::thread::current().unpark();
+        call(&mut out, &Message::QueryState(own), Some(Message::ReportState(own, State::PageLoadInProgress)), None, 1, None);
+        std::thread::current().unpark();
+        call(&mut out, &Message::Hello(own), Some(Message::ReportState(own, State::PageShowInProgress)), None, 1, None);
+        call(&mut out, &chunk, None, None, 1, None);
+        call(&mut out, &chunk, None, None, 1, None);
+        call(&mut out, &Message::DataChunksSent(ChunkCount(2)), None, None, 1, None);
+    }
+    // leave no token behind for whatever runs next on this thread
+    std::thread::park_timeout(Duration::from_millis(0));
     out.emit(json!({"e": "end"}));
     let _ = n;
     out.finish()
